@@ -1,6 +1,7 @@
 (* C07 — the statements of Properties/C07.v: the table theorems of C07TableProofs.v put together with the
    simulation of C07ParseProofs.v, and the witnesses of the findings (kernel-evaluated). *)
-From JV Require Import Lib.Base Model.C07Decl Model.C07Parse Proofs.C07TableProofs Proofs.C07ParseProofs.
+From JV Require Import Lib.Base Model.C07Decl Model.C07Parse Proofs.C07TableProofs Proofs.C07ParseProofs
+  Proofs.C07MemberProofs.
 
 (* a table of leaf actions that all live below the group key *)
 Definition leaf_table (gk : str) (T : table) : Prop :=
@@ -139,6 +140,86 @@ Proof.
   rewrite (norm_idem fs Hp). reflexivity.
 Qed.
 
+(* ================================ members: overrides, flat groups ================================ *)
+Lemma plain_names_nodash nl :
+  forallb plain_name (map oname nl) = true -> forallb (fun o => negb (has_dash (oname o))) nl = true.
+Proof.
+  induction nl as [|o nl IH]; simpl; [reflexivity|]. intro H. apply andb_true_iff in H. destruct H as [Ho Hnl].
+  unfold plain_name in Ho. apply andb_true_iff in Ho. destruct Ho as [_ Ho]. rewrite Ho, (IH Hnl). reflexivity.
+Qed.
+
+Lemma four_styles_agree_m pv jl full gk ms inp :
+  finding_class_m pv gk ms inp = 0%N ->
+  let r := run pv jl (as_dotted_m gk (mnorm ms)) inp in
+  (exists Tc, as_class_group_m full gk ms = Some Tc /\ run pv jl Tc inp = r)
+  /\ (exists Td, as_dataclass_m (dashes ++ gk) ms = Some Td /\ run pv jl Td inp = r)
+  /\ run pv jl (as_inner_parser_m (dashes ++ gk) (mnorm ms)) inp = r.
+Proof.
+  unfold finding_class_m. intros H. set (r := run pv jl (as_dotted_m gk (mnorm ms)) inp).
+  destruct (well_formed_m gk ms) eqn:Ew; simpl in H; [|discriminate].
+  destruct (hyphen_defaults gk ms) eqn:Eh; [discriminate|].
+  destruct (argv_names_group gk inp || _) eqn:Ea; [discriminate|].
+  destruct (env_names_group gk inp || _) eqn:Ee; [discriminate|].
+  destruct (config_group_text pv gk inp || _) eqn:Et; [discriminate|].
+  destruct (config_group_nonmap pv gk inp || _) eqn:Ec; [discriminate|].
+  destruct (has_nested ms) eqn:En; [discriminate|]. clear H.
+  apply orb_false_iff in Ea, Ee, Ec. destruct Ea as [Ea _]. destruct Ee as [Ee _]. destruct Ec as [Ec _].
+  destruct (flat_members ms En) as [os ->].
+  unfold well_formed_m in Ew. rewrite mnorm_leaves in Ew.
+  repeat (apply andb_true_iff in Ew; destruct Ew as [Ew ?]).
+  rename H into Hnames, H0 into Hover, H1 into Hne, H2 into Hsd. rename Ew into Hdot.
+  apply negb_true_iff in Hdot, Hsd, Hne.
+  unfold names_ok in Hnames. rewrite member_names_leaves in Hnames.
+  repeat (apply andb_true_iff in Hnames; destruct Hnames as [Hnames ?]).
+  rename H into Hsubs, H0 into Hnodup. apply plain_names_nodash in Hnames.
+  unfold overrides_ok in Hover. rewrite ofields_leaves in Hover.
+  rewrite flat_leaves in Hne.
+  assert (Hnl : onorm os <> []).
+  { intro E. rewrite E in Hne. discriminate. }
+  assert (Hfs : map eff (onorm os) <> []).
+  { intro E. rewrite E in Hne. discriminate. }
+  assert (Hdash : existsb (fun o => isSome (o_over o)) os = true -> has_dash gk = false).
+  { intro Ho. unfold hyphen_defaults in Eh. rewrite ms_has_over_leaves, Ho in Eh. simpl in Eh.
+    rewrite andb_true_r in Eh. exact Eh. }
+  assert (Eclass : forall fl, as_class_group_m fl gk (map MLeaf os)
+                              = Some (with_load gk (as_dotted gk (map eff (onorm os))))).
+  { intro fl. apply class_group_m_flat; assumption. }
+  assert (Erun : run pv jl (with_load gk (as_dotted gk (map eff (onorm os)))) inp = r).
+  { unfold r, as_dotted_m. rewrite mnorm_leaves, flat_leaves.
+    apply equiv_tables_same_parse; try assumption. apply dotted_leaf_table; assumption. }
+  split; [|split].
+  - eexists. split; [apply Eclass | exact Erun].
+  - eexists. split; [|exact Erun]. unfold as_dataclass_m. rewrite (lstrip_dash_key gk Hsd). apply Eclass.
+  - rewrite mnorm_leaves, inner_m_flat. exact Erun.
+Qed.
+
+(* the tables themselves, for all flat member lists: no override is lost, none lands elsewhere *)
+Lemma grouped_tables_equal_m full gk os :
+  well_formed_m gk (map MLeaf os) = true -> hyphen_defaults gk (map MLeaf os) = false ->
+  let T := with_load gk (as_dotted_m gk (mnorm (map MLeaf os))) in
+  as_class_group_m full gk (map MLeaf os) = Some T
+  /\ as_dataclass_m (dashes ++ gk) (map MLeaf os) = Some T
+  /\ as_inner_parser_m (dashes ++ gk) (mnorm (map MLeaf os)) = T.
+Proof.
+  intros Ew Eh T. unfold T, as_dotted_m. rewrite mnorm_leaves, flat_leaves.
+  unfold well_formed_m in Ew. rewrite mnorm_leaves in Ew.
+  repeat (apply andb_true_iff in Ew; destruct Ew as [Ew ?]).
+  rename H into Hnames, H0 into Hover, H1 into Hne, H2 into Hsd.
+  apply negb_true_iff in Hsd, Hne.
+  unfold names_ok in Hnames. rewrite member_names_leaves in Hnames.
+  repeat (apply andb_true_iff in Hnames; destruct Hnames as [Hnames ?]).
+  rename H0 into Hnodup. apply plain_names_nodash in Hnames.
+  unfold overrides_ok in Hover. rewrite ofields_leaves in Hover. rewrite flat_leaves in Hne.
+  assert (Hnl : onorm os <> []) by (intro E; rewrite E in Hne; discriminate).
+  assert (Hdash : existsb (fun o => isSome (o_over o)) os = true -> has_dash gk = false).
+  { intro Ho. unfold hyphen_defaults in Eh. rewrite ms_has_over_leaves, Ho in Eh. simpl in Eh.
+    rewrite andb_true_r in Eh. exact Eh. }
+  split; [|split].
+  - apply class_group_m_flat; assumption.
+  - unfold as_dataclass_m. rewrite (lstrip_dash_key gk Hsd). apply class_group_m_flat; assumption.
+  - apply inner_m_flat.
+Qed.
+
 (* ================================ witnesses ================================ *)
 Definition w_g : str := [103]%N.
 Definition w_a : str := [97]%N.
@@ -178,6 +259,9 @@ Definition w_in_obj_null : input := {| i_env := []; i_entry := EObject [(w_g, VN
 Definition w_in_obj_five : input := {| i_env := []; i_entry := EObject [(w_g, VInt 5)] |}.
 Definition w_in_plain : input := w_args [(dashes ++ w_g ++ [c_dot] ++ w_a, w_two)]. (* --g.a=2 *)
 Definition w_in_req : input := w_args [(dashes ++ w_myg ++ [c_dot] ++ w_f, w_two)]. (* --my-g.f=2 *)
+
+Definition leaf_rows_of (T : table) : list row :=
+  filter (fun r => match r_kind r with KLeaf => true | KGroupLoad => false end) (t_rows T).
 
 Definition is_ok {A} (r : res A) : bool := match r with Ok _ => true | _ => false end.
 Definition is_reject {A} (r : res A) : bool := match r with Reject => true | _ => false end.
@@ -238,16 +322,47 @@ Lemma dotted_group_key_null_refuted :
     /\ dumped (run pv jl (as_class_group gk fs) inp) = Some [].
 Proof. exists w_pv, w_jl, w_g, w_fields, w_in_obj_null. repeat split; vm_compute; reflexivity. Qed.
 
-(* class 4: a number for the group key: rejected by the dotted style, REPLACES the group in the others *)
-Lemma group_key_scalar_refuted :
-  exists pv jl gk fs inp,
-    finding_class pv gk fs inp = 4%N
-    /\ is_reject (run pv jl (as_dotted gk (norm fs)) inp) = true
-    /\ (exists c d, run pv jl (as_class_group gk fs) inp = Ok (c, d) /\ lookup gk c = Some (TLeaf (VInt 5))).
-Proof.
-  exists w_pv, w_jl, w_g, w_fields, w_in_obj_five. split; [vm_compute; reflexivity|]. split; [vm_compute; reflexivity|].
-  eexists. eexists. split; vm_compute; reflexivity.
-Qed.
+(* class 4 (fixed in the tree by d768470): a number for the group key is now rejected by all four styles *)
+Lemma group_key_scalar_now_rejected :
+  is_reject (run w_pv w_jl (as_dotted w_g (norm w_fields)) w_in_obj_five) = true
+  /\ is_reject (run w_pv w_jl (as_class_group w_g w_fields) w_in_obj_five) = true.
+Proof. split; vm_compute; reflexivity. Qed.
+
+(* class 8: hyphenated key and a declaration-time default override: parser.set_defaults is handed the RAW key
+   ("my-g.a") and finds no action (dest "my_g.a"): the signature styles cannot be declared at all *)
+Definition w_over_members : list member :=
+  [ MLeaf {| o_field := {| f_name := w_a; f_ty := TInt; f_default := Dflt (VInt 1) |}; o_over := Some (VInt 5) |};
+    MLeaf {| o_field := {| f_name := w_b; f_ty := TStr; f_default := Dflt (VStr [120]%N) |}; o_over := None |} ].
+(* a, the nested sub-group s {lr = 2 overridden by 7, m}, b overridden: something comes after the nested member *)
+Definition w_nested_members : list member :=
+  [ MLeaf {| o_field := {| f_name := w_a; f_ty := TInt; f_default := Dflt (VInt 1) |}; o_over := Some (VInt 5) |};
+    MSub [115]%N
+      [ {| o_field := {| f_name := [108;114]%N; f_ty := TInt; f_default := Dflt (VInt 2) |}; o_over := Some (VInt 7) |};
+        {| o_field := {| f_name := [109]%N; f_ty := TStr; f_default := Dflt (VStr [120]%N) |}; o_over := None |} ] true;
+    MLeaf {| o_field := {| f_name := w_b; f_ty := TInt; f_default := Dflt (VInt 3) |}; o_over := Some (VInt 9) |} ].
+
+Lemma hyphen_key_default_override_refuted :
+  exists full gk ms,
+    finding_class_m (fun s => VStr s) gk ms {| i_env := []; i_entry := EArgs [] |} = 8%N
+    /\ as_class_group_m full gk ms = None
+    /\ as_dataclass_m (dashes ++ gk) ms = None
+    /\ as_class_group_m full (gdest gk) ms = Some (as_inner_parser_m (dashes ++ gdest gk) (mnorm ms)).
+Proof. exists false, w_myg, w_over_members. repeat split; vm_compute; reflexivity. Qed.
+
+(* the hypotheses of the member theorems are satisfiable, overrides included; and on a NESTED declaration the model
+   compilers agree as well (kernel-evaluated instance: set_defaults goes on after the whole-group entry) *)
+Lemma member_guard_example :
+  finding_class_m w_pv w_g w_over_members w_in_plain = 0%N
+  /\ group_value (run w_pv w_jl (as_dotted_m w_g (mnorm w_over_members)) (w_args [])) w_g w_a = Some (VInt 5).
+Proof. split; vm_compute; reflexivity. Qed.
+
+Lemma nested_tables_example :
+  well_formed_m w_g w_nested_members = true
+  /\ as_class_group_m false w_g w_nested_members = Some (as_inner_parser_m (dashes ++ w_g) (mnorm w_nested_members))
+  /\ as_dataclass_m (dashes ++ w_g) w_nested_members = Some (as_inner_parser_m (dashes ++ w_g) (mnorm w_nested_members))
+  /\ leaf_rows_of (as_inner_parser_m (dashes ++ w_g) (mnorm w_nested_members))
+     = t_rows (as_dotted_m w_g (mnorm w_nested_members)).
+Proof. repeat split; vm_compute; reflexivity. Qed.
 
 (* class 5: hyphen in the key of an inner parser with a required option: every input is rejected *)
 Lemma inner_hyphen_required_refuted :
